@@ -78,14 +78,12 @@ int disasm_pdk13(
           snprintf(instruction, length, "%s [%d], a", table_pdk13[n].instr, m);
           return 2;
         case OP_A_M4:
-          bit = (opcode >> 6) & 0x7;
           m = opcode & 0x1e;
-          snprintf(instruction, length, "%s a, [%d].%d", table_pdk13[n].instr, m, bit);
+          snprintf(instruction, length, "%s a, [%d]", table_pdk13[n].instr, m);
           return 2;
         case OP_M4_A:
-          bit = (opcode >> 6) & 0x7;
           m = opcode & 0x1e;
-          snprintf(instruction, length, "%s [%d].%d, a", table_pdk13[n].instr, m, bit);
+          snprintf(instruction, length, "%s [%d], a", table_pdk13[n].instr, m);
           return 2;
         case OP_IO_N:
           bit = (opcode >> 5) & 0x7;
